@@ -166,9 +166,15 @@ fn sw(w: &[u32]) -> SmtString {
 /// union of n two-letter words [F + k][L + k] (adjacent leading characters, pairwise different continuations),
 /// observed as `prop` needs; n is above 2^10 so that every operand- or class-count threshold up to there is crossed
 pub fn wide_union(rep: &mut Report, prop: &str, n: u32, seed: u64) {
-    const F: u32 = 1000;
+    wide_union_from(rep, prop, n, 1000, seed)
+}
+
+/// the same with the first letters starting at code point `f0` (0: class index = code point)
+#[allow(non_snake_case)]
+pub fn wide_union_from(rep: &mut Report, prop: &str, n: u32, f0: u32, seed: u64) {
+    let F: u32 = f0;
     const L: u32 = 50_000;
-    let case = format!("wide-union {} {}", prop, n);
+    let case = format!("wide-union {} {} {}", prop, n, f0);
     let r = guard(|| -> Result<(), String> {
         let mut m = ReManager::new();
         let mut ops: Vec<RegLan> = Vec::new();
@@ -200,7 +206,7 @@ pub fn wide_union(rep: &mut Report, prop: &str, n: u32, seed: u64) {
                         }
                     }
                 }
-                for w in [vec![], vec![F], vec![F, L, L], vec![F + n, L + n], vec![F - 1, L]] {
+                for w in [vec![], vec![F], vec![F, L, L], vec![F + n, L + n], vec![(F + n + 1).min(0x2FFFF), L]] {
                     if m.str_in_re(&sw(&w), e) {
                         return Err(format!("union of {} two-letter words accepts {}", n, show_str(&w)));
                     }
@@ -1117,6 +1123,13 @@ pub fn replay(text: &str, seed: u64, rep: &mut Report) -> bool {
         ["wide-union", p, n] => {
             if let Ok(n) = n.parse::<u32>() {
                 wide_union(rep, p, n, seed);
+                return true;
+            }
+            false
+        }
+        ["wide-union", p, n, f0] => {
+            if let (Ok(n), Ok(f0)) = (n.parse::<u32>(), f0.parse::<u32>()) {
+                wide_union_from(rep, p, n, f0, seed);
                 return true;
             }
             false
